@@ -25,8 +25,8 @@ abbrev NodeId := Nat
 abbrev Val := Nat
 
 structure Node where
-  id  : NodeId
-  val : Val
+  id  : Nat          -- NodeId
+  val : Nat          -- Val
   deriving DecidableEq, Repr
 
 abbrev Chain := List Node
@@ -35,6 +35,12 @@ inductive Link
   | head
   | after (n : NodeId)
   deriving DecidableEq, Repr
+
+/-- the node whose link field a link pointer points into (`container_of(elem, queue_elem, prev)`),
+`none` for `&q->head` -/
+def Link.owner : Link → Option NodeId
+  | .head => none
+  | .after n => some n
 
 /-- index of the node with identity `n` -/
 def posOf (n : NodeId) : Chain → Option Nat
@@ -69,7 +75,7 @@ structure Cont where
   tail  : Option NodeId := none  -- queue only
   dtor  : Bool := false          -- a destructor was supplied
   cmp   : Bool := false          -- list only: a comparator was supplied
-  fresh : NodeId := 0            -- allocation counter (ghost)
+  fresh : Nat := 0               -- allocation counter (ghost): next NodeId
   deriving DecidableEq, Repr
 
 /-- iterator object (`struct _queue_itr` / `_stack_itr` / `_list_itr`) -/
@@ -161,8 +167,7 @@ def itrRemove (s : St) : St × Ret :=
         | none => (s, .int ENOENT)
         | some tmp =>
           -- *itr->elem = (*itr->elem)->prev; dtor; if (tmp == tail) tail = <predecessor or NULL>; len--
-          let tail' := if q.tail = some tmp.id then
-              (match it.elem with | .head => none | .after n => some n) else q.tail
+          let tail' := if q.tail = some tmp.id then it.elem.owner else q.tail
           ({ s with obj := some { q with chain := eraseAt q.chain p, tail := tail', len := q.len - 1 },
                     itr := some { it with removed := true },
                     log := callDtor q.dtor s.log tmp.val }, .int 0)
